@@ -151,7 +151,16 @@ func (defaultLocker *DefaultLocker) Lock(ctx context.Context, accounts Accounts)
 	select {
 	case <-ctx.Done():
 		verifhook.Yield(ctx, "lock.cancelled")
-		defaultLocker.intents.RemoveValue(intent)
+		// The intent may have been granted between the cancellation and now (recheck
+		// removes granted intents from the list under the locker mutex): in that case
+		// the accounts are locked on behalf of a caller that is about to get an error
+		// and will never unlock them, so give them back here.
+		defaultLocker.mu.Lock()
+		removed := defaultLocker.intents.RemoveValue(intent)
+		defaultLocker.mu.Unlock()
+		if removed == nil {
+			releaseIntent(ctx)
+		}
 		return nil, errors.Wrapf(ctx.Err(), "locking accounts: %s as read, and %s as write", accounts.Read, accounts.Write)
 	case <-intent.acquired:
 		verifhook.Yield(ctx, "lock.granted")
